@@ -362,6 +362,8 @@ class FakeAsyncio:
         return await self._world.loop.run_in_executor(None, functools.partial(ctx.run, func, *args, **kwargs))
 
     def __getattr__(self, name: str) -> Any:
+        if name.startswith("__"):
+            raise AttributeError(name)
         raise HarnessError("asyncio.%s is not modelled" % name)
 
 
